@@ -74,21 +74,21 @@ check("C29", "internal/zzverif/c29",
       shards=(8, 16), floors={"any": {"pairs": 100000, "key_pairs": 50000}}, exhaustive="all V in 0..1100; all pairs for V<=40")
 
 check("C24", "internal/zzverif/c24",
-      rule="case = (slot, pools with duplicates over a 2..6-symbol alphabet and lengths 0..O, queues of Q entries, 0..C guarantees whose authorizer is present once / several times / absent) run through STFAlpha2AlphaPrime on deep copies (with and without spare capacity) and every 10th through Authorization() on the singleton; tiny params, every 50th case full params (C=341); "
-           "compared with a 20-line model (remove leftmost occurrence, append queue[slot mod Q], keep last O). distinct_nontrivial = distinct (pools, slot, guarantees)",
+      rule="case = (slot, pools with duplicates over a 2..6-symbol alphabet and lengths 0..O, queues of Q entries, guarantees for half of the cores — one per core, in a fifth of them two or three naming the same core — whose authorizer is present once / several times / absent) run through STFAlpha2AlphaPrime on deep copies (with and without spare capacity) and every 10th through Authorization() on the singleton; tiny params, every 50th case full params (C=341); "
+           "compared with a 20-line model (for each guarantee of the core in extrinsic order remove the leftmost occurrence of its authorizer, append queue[slot mod Q], keep last O). distinct_nontrivial = distinct (pools, slot, guarantees)",
       technique="reference-model monitor (authorizer-pool model) over generated pools/queues/guarantees",
       level_text="Differential run against an independent 20-line model on generated transitions under both parameter sets; held = no divergence on what was explored.",
       note="Trusts the pool model in the harness. In-place mutation of the prior pool's backing array is not judged here (atomicity is C26's concern). Cores with a nil pool AND a guarantee are not generated (guarantee validation rejects them earlier).",
-      shards=(8, 16), floors={"any": {"with_guarantees": 20000, "authorizer_absent": 1000, "authorizer_duplicated": 1000, "via_singleton": 1000, "full_params": 100}},
+      shards=(8, 16), floors={"any": {"with_guarantees": 20000, "authorizer_absent": 1000, "authorizer_duplicated": 1000, "via_singleton": 1000, "full_params": 100, "blocks_with_several_guarantees_for_one_core": 3000}},
       assumptions=[STANDIN_VRF])
 
 check("C25", "internal/zzverif/c25",
-      rule="case = one block history of 3H..3H+7 blocks, each with 0..C+2 guarantees (package hashes sharing a 31-byte prefix half of the time), 0..6 accumulation outputs and a random parent state root, driven through the production path (singleton: prior beta, latest block, posterior theta; STFBetaH2BetaHDagger + STFBetaHDagger2BetaHPrime), carrying either the very objects or deep copies forward; "
+      rule="case = one block history of 3H..3H+7 blocks, each with 0..C+2 guarantees (package hashes sharing a 31-byte prefix half of the time), 0..6 accumulation outputs and a random parent state root, driven through the production path (singleton: prior beta, latest block, posterior theta; STFBetaH2BetaHDagger + STFBetaHDagger2BetaHPrime), carrying either the very objects or deep copies forward; when the objects are carried, a third of the blocks are preceded by a DISCARDED sibling block computed on the same prior-state objects (a candidate that is thrown away, a fork), of which the real block must see no trace; "
            "after every block beta_H' and beta_B' are compared with an independent model (refmerkle MMR + M_B with Keccak, header hash = blake2b of the encoded header); plus pure-helper cases for AddItem2BetaHPrime and MapWorkReportFromEg. distinct_nontrivial = distinct histories + pure cases",
       technique="reference-model monitor (recent-history + MMR model) over generated block histories longer than H",
       level_text="Every block of generated histories is compared with an independent model of 7.5-7.8; held = no divergence on what was explored.",
       note="Trusts the model in harness/internal/zzverif/c25 and refmerkle; the header hash uses the repository's own header encoder (covered by C11).",
-      shards=(8, 16), floors={"any": {"blocks": 5000, "blocks_with_several_packages": 500, "blocks_dropping_oldest": 1000}}, assumptions=[STANDIN_VRF])
+      shards=(8, 16), floors={"any": {"blocks": 5000, "blocks_with_several_packages": 500, "blocks_dropping_oldest": 1000, "discarded_sibling_blocks_on_a_full_history": 300}}, assumptions=[STANDIN_VRF])
 
 PVM_NOTE = ("Trusts refpvm (harness/internal/zzverif/refpvm: ~800 lines written from GP 0.7.2 App. A, no shared code). Not judged (DESIGN §3): sbrk results (U2), "
             "accesses wrapping past 2^32 (U14), branches landing at/after the end of the code (U15), programs with more than 24 operand bytes after an opcode (U17), "
